@@ -79,7 +79,8 @@ pub fn ref_scores(spec: &ModelSpec, text: &[char]) -> (Vec<i64>, ScoreStats) {
     for g in &spec.char_ngrams {
         let pat: Vec<char> = g.ngram.chars().collect();
         let l = pat.len();
-        if l == 0 {
+        if l == 0 || spec.char_window == 0 {
+            // an empty window reaches no boundary
             continue;
         }
         let w = spec.char_window as isize;
@@ -94,7 +95,7 @@ pub fn ref_scores(spec: &ModelSpec, text: &[char]) -> (Vec<i64>, ScoreStats) {
     }
     for g in &spec.type_ngrams {
         let l = g.ngram.len();
-        if l == 0 {
+        if l == 0 || spec.type_window == 0 {
             continue;
         }
         let w = spec.type_window as isize;
